@@ -881,6 +881,16 @@ func main() {
 		}
 	} else {
 		cases = buildCases(a, groups)
+		// development aid: C03_SAMPLE=k keeps every k-th case of the list
+		if k, err := strconv.Atoi(os.Getenv("C03_SAMPLE")); err == nil && k > 1 {
+			var keep []caseSpec
+			for i, c := range cases {
+				if i%k == 0 {
+					keep = append(keep, c)
+				}
+			}
+			cases = keep
+		}
 	}
 
 	// run the implementation (parallel over cases; every case has its own tapes)
